@@ -82,6 +82,8 @@ var verif_ghost struct {
 	jCalled bool            // an IndexedJsonDocument.Compare call was made
 	jOther  interface{}     // the operand it was given
 	jCmp    int             // its result
+	gSub    uint64          // result of the most recent Node.GetSubtreeCount ...
+	gSubIdx int             // ... and the child index it was asked for
 }
 
 func verif_x_idoc_Compare(i IndexedJsonDocument, ctx context.Context, other interface{}) (cmp int, err error) {
